@@ -111,6 +111,7 @@ struct Gen {
     f.set("seekable", seekable ? 1 : 0).set("rdpol", rdpol).set("rdk", (int64_t)g.range(1, 3000)).setu("rdseed", g.next() % 100000);
     f.set("open", (int64_t)(g.chance(0.7) ? 0 : g.below(4))).set("poison", (int64_t)g.below(5)).setu("pseed", g.next() % 100000);
     if (!seekable) { f.set("noseekfn", (int64_t)g.below(2)); if (g.chance(0.3)) f.set("ibytes", (int64_t)g.range(1, 5000)); }
+    else if (g.chance(0.1)) f.set("ibytes", (int64_t)(g.chance(0.5) ? 4 : g.range(1, 300)));   // a seekable source whose first bytes the application has already read
     if (g.chance(0.3)) f.set("clear2", 1);
     if (g.chance(0.05)) f.set("noclosefn", 1);
     if (f.i("open") >= 2) f.set("stdiobuf", (int64_t)g.range(16, 4096));
